@@ -249,12 +249,13 @@ class Model:
             except SyntaxError as e:
                 raise AnalysisError(f"{path} does not parse: {e}") from e
         # behaviour-preserving canonicalisation of the model's own copy (see sa/normalize.py)
-        from .normalize import literals_right, aliases_to_captures, annotate_constructor_calls, loops_to_comprehensions, positional_calls, closed_class_names, isinstance_to_match, normalize_package
+        from .normalize import inline_new_temps, literals_right, aliases_to_captures, annotate_constructor_calls, loops_to_comprehensions, positional_calls, closed_class_names, isinstance_to_match, normalize_package
 
         closed = closed_class_names(trees)
         self.inlined = normalize_package(trees)
         self.dispatches_converted = 0
         for rel, tree in trees.items():
+            self.inlined += inline_new_temps(rel, tree)
             self.dispatches_converted += isinstance_to_match(tree, closed)
             self.inlined += aliases_to_captures(tree)
             self.inlined += loops_to_comprehensions(tree)
